@@ -7,20 +7,6 @@ From Coq Require Import List Arith ZArith Bool Lia.
 From TLV Require Import Model.Effects Proofs.EffectsProofs Proofs.EffectsProofsGen.
 Import ListNotations.
 
-Fixpoint rep_prefixes (k : nat) (pre : astate -> list astate) (step : astate -> option astate) (s : astate) : list astate :=
-  match k with
-  | O => []
-  | S k' => pre s ++ match step s with Some s1 => rep_prefixes k' pre step s1 | None => [] end
-  end.
-
-Fixpoint aprefixes (c : cmd) (s : astate) : list astate :=
-  match c with
-  | Seq c1 c2 => aprefixes c1 s ++ match aexec c1 s with Some s1 => aprefixes c2 s1 | None => [] end
-  | Repeat k c1 => rep_prefixes k (aprefixes c1) (aexec c1) s
-  | Call x body args ret => map (fun s' => (fst s, snd s')) (aprefixes body (call_env ANull (fst s) args, snd s))
-  | _ => [s]
-  end.
-
 Lemma run_hext : forall c n e h, hext h (snd (fst (run c n (e, h)))).
 Proof.
   induction c; intros n0 e h; simpl;
@@ -80,12 +66,6 @@ Proof.
       intros y. eapply inv_mono_env; eauto.
 Qed.
 End TrySim.
-
-Definition is_some {A} (o : option A) : bool := match o with Some _ => true | None => false end.
-
-Definition safe_try_with (flags : list bool) (c hd : cmd) : bool :=
-  is_some (aexec c (aenv0 flags, [])) && forallb (fun s => is_some (aexec hd s)) (aprefixes c (aenv0 flags, [])).
-Definition safe_try (nargs : nat) (c hd : cmd) : bool := safe_try_with (repeat false nargs) c hd.
 
 (* try: c except: hd  -- the body raises after n effects, the handler runs m effects (or to completion) *)
 Theorem frame_try : forall (c hd : cmd) (args : list ref) (h0 : heap),
@@ -149,4 +129,158 @@ Lemma try_demo :
   snd (run try_body_bad 2 (env0 [RObj 0 [0; 1]], [OBuf [5; 7]%Z])) = None /\
   snd (fst (run try_handler 1 (fst (run try_body_bad 2 (env0 [RObj 0 [0; 1]], [OBuf [5; 7]%Z]))))) <> [OBuf [5; 7]%Z] /\
   firstn 1 (snd (fst (run try_handler 1 (fst (run try_body_good 2 (env0 [RObj 0 [0; 1]], [OBuf [5; 7]%Z])))))) = [OBuf [5; 7]%Z].
+Proof. vm_compute. repeat split; try reflexivity. discriminate. Qed.
+
+(* ------------------------------------------------------------------ a whole program with one try statement:
+   pre; try: c except: hd; rest  - the body raises after n primitive effects, for EVERY n (n >= size c: no exception) *)
+Theorem frame_tryprog : forall (pre c hd rest : cmd) (args : list ref) (h0 : heap),
+  safe_tryprog (length args) pre c hd rest = true ->
+  forall n o, o < length h0 -> nth_error (snd (exec_try pre c hd rest n (env0 args, h0))) o = nth_error h0 o.
+Proof.
+  intros pre c hd rest args h0 Hs n o Ho. unfold safe_tryprog, safe_tryprog_with in Hs.
+  destruct (aexec pre (aenv0 (repeat false (length args)), [])) as [[ae1 ah1]|] eqn:E1; [|discriminate].
+  destruct (aexec c (ae1, ah1)) as [[ae2 ah2]|] eqn:E2; [|discriminate].
+  apply andb_true_iff in Hs. destruct Hs as [Hr Hh].
+  assert (HU : forall o, False -> o < length h0) by (intros ? []).
+  assert (Hinv : Inv h0 (fun _ => False) (env0 args) h0 (aenv0 (repeat false (length args))) []).
+  { split; [|split; [|split; [|split]]].
+    - simpl. lia.
+    - intros k ao Hk. destruct k; discriminate.
+    - reflexivity.
+    - intros o' it [].
+    - apply env0_rel_prot. }
+  pose proof (simulation h0 (fun _ => False) HU pre _ _ _ _ _ _ E1 Hinv) as H1.
+  unfold exec_try. destruct (exec pre (env0 args, h0)) as [e1 h1]. simpl in H1.
+  destruct (run c n (e1, h1)) as [[e2 h2] [m|]] eqn:R.
+  - pose proof (run_complete _ _ _ _ _ R) as Hc.
+    pose proof (simulation h0 (fun _ => False) HU c _ _ _ _ _ _ E2 H1) as H2. rewrite <- Hc in H2. simpl in H2.
+    destruct (aexec rest (ae2, ah2)) as [[ae3 ah3]|] eqn:E3; [|discriminate].
+    pose proof (simulation h0 (fun _ => False) HU rest _ _ _ _ _ _ E3 H2) as (_ & _ & H3 & _ & _). apply H3; auto.
+  - destruct (run_prefix_inv h0 (fun _ => False) HU c n _ _ _ _ _ _ _ _ E2 H1 R) as (aep & ahp & Hin & Hi).
+    rewrite forallb_forall in Hh. specialize (Hh _ Hin).
+    destruct (aexec hd (aep, ahp)) as [[ae3 ah3]|] eqn:E3; [|discriminate].
+    destruct (aexec rest (ae3, ah3)) as [[ae4 ah4]|] eqn:E4; [|discriminate].
+    pose proof (simulation h0 (fun _ => False) HU hd _ _ _ _ _ _ E3 Hi) as H3.
+    destruct (exec hd (e2, h2)) as [e3 h3]. simpl in H3.
+    pose proof (simulation h0 (fun _ => False) HU rest _ _ _ _ _ _ E4 H3) as (_ & _ & H4 & _ & _). apply H4; auto.
+Qed.
+
+Corollary frame_tryprog_footprint : forall pre c hd rest args h0 n,
+  safe_tryprog (length args) pre c hd rest = true -> footprint_try pre c hd rest n args h0 = [].
+Proof.
+  intros pre c hd rest args h0 n Hs. unfold footprint_try.
+  assert (H : forall l, (forall o, In o l -> o < length h0) ->
+    filter (fun o => match nth_error h0 o, nth_error (snd (exec_try pre c hd rest n (env0 args, h0))) o with
+                     | Some a, Some b => negb (obj_eqb a b) | _, _ => true end) l = []).
+  { induction l as [|o l IH]; intros Hl; simpl; auto.
+    rewrite (frame_tryprog pre c hd rest args h0 Hs n o) by (apply Hl; left; auto).
+    destruct (nth_error h0 o) as [a|] eqn:E.
+    - rewrite obj_eqb_refl. simpl. apply IH. intros; apply Hl; right; auto.
+    - exfalso. apply nth_error_None in E. specialize (Hl o (or_introl eq_refl)). lia. }
+  apply H. intros o Ho. apply in_seq in Ho. lia.
+Qed.
+
+(* the entry points that catch and go on *)
+Lemma try_skeletons_safe :
+  forallb (fun p => let '(n, (pre, c, hd, rest)) := p in safe_tryprog n pre c hd rest) try_skeletons = true.
+Proof. vm_compute. reflexivity. Qed.
+Lemma try_skeletons_frame : Forall (fun p => let '(k, (pre, c, hd, rest)) := p in
+  forall (args : list ref) (h0 : heap) (n o : nat), length args = k -> o < length h0 ->
+    nth_error (snd (exec_try pre c hd rest n (env0 args, h0))) o = nth_error h0 o) try_skeletons.
+Proof.
+  apply Forall_forall. intros [k [[[pre c] hd] rest]] Hin args h0 n o Hl Ho. subst k.
+  apply frame_tryprog; auto.
+  pose proof try_skeletons_safe as H. rewrite forallb_forall in H. exact (H _ Hin).
+Qed.
+Lemma active_set_try_mutant :
+  (let '(pre, c, hd, rest) := tp_active_set_nnls_mut in safe_tryprog 3 pre c hd rest) = false /\
+  (let '(pre, c, hd, rest) := tp_active_set_nnls_mut in
+   footprint_try pre c hd rest 2 [RObj 0 [0; 1]; RObj 1 [0; 1; 2; 3]; RObj 2 [0; 1]] [OBuf [1; 2]%Z; OBuf [1; 0; 0; 1]%Z; OBuf [7; 7]%Z]) = [2] /\
+  (let '(pre, c, hd, rest) := tp_active_set_nnls in
+   footprint_try pre c hd rest 2 [RObj 0 [0; 1]; RObj 1 [0; 1; 2; 3]; RObj 2 [0; 1]] [OBuf [1; 2]%Z; OBuf [1; 0; 0; 1]%Z; OBuf [7; 7]%Z]) = [].
+Proof. vm_compute. repeat split; reflexivity. Qed.
+Lemma wrapper_ctor_safe : safe 1 sk_wrapper_ctor = true.
+Proof. vm_compute. reflexivity. Qed.
+
+(* ------------------------------------------------------------------ programs with several try statements (tcmd) *)
+Lemma tbind_in {A B} (f : A -> option (list B)) : forall l r, tbind l f = Some r ->
+  forall a, In a l -> exists ra, f a = Some ra /\ incl ra r.
+Proof.
+  induction l as [|a0 l IH]; intros r H a Ha; [destruct Ha|]. simpl in H.
+  destruct (f a0) as [x|] eqn:E0; [|discriminate]. destruct (tbind l f) as [y|] eqn:E1; [|discriminate].
+  inversion H; subst. destruct Ha as [->|Ha].
+  - exists x. split; auto. apply incl_appl, incl_refl.
+  - destruct (IH _ eq_refl a Ha) as (ra & Ea & Hi). exists ra. split; auto. apply incl_appr; auto.
+Qed.
+
+Section TcmdSim.
+Variable h0 : heap.
+Variable U : nat -> Prop.
+Hypothesis U_init : forall o, U o -> o < length h0.
+
+Definition covered (l : list astate) (s : state) : Prop :=
+  exists ae ah, In (ae, ah) l /\ Inv h0 U (fst s) (snd s) ae ah.
+
+Lemma tcmd_sim : forall t l l', tstates t l = Some l' ->
+  forall ns s, covered l s -> covered l' (fst (texec t ns s)).
+Proof.
+  induction t; intros l l' Ht ns [e h] (ae & ah & Hin & Hinv); simpl in *.
+  - (* TPlain *)
+    destruct (tbind_in _ _ _ Ht _ Hin) as (ra & Ea & Hi).
+    destruct (aexec c (ae, ah)) as [[ae1 ah1]|] eqn:E1; [|discriminate]. simpl in Ea. inversion Ea; subst.
+    exists ae1, ah1. split; [apply Hi; left; reflexivity|].
+    exact (simulation h0 U U_init c _ _ _ _ _ _ E1 Hinv).
+  - (* TTry *)
+    destruct (tbind_in _ _ _ Ht _ Hin) as (ra & Ea & Hi).
+    destruct (aexec c (ae, ah)) as [[ae2 ah2]|] eqn:E2; [|discriminate].
+    destruct (tbind (aprefixes c (ae, ah)) (fun sp => one_state (aexec hd sp))) as [hs|] eqn:Eh; [|discriminate].
+    inversion Ea; subst.
+    assert (Hnormal : covered l' (exec c (e, h))).
+    { exists ae2, ah2. split; [apply Hi; left; reflexivity|]. exact (simulation h0 U U_init c _ _ _ _ _ _ E2 Hinv). }
+    destruct ns as [|n ns']; [exact Hnormal|].
+    destruct (run c n (e, h)) as [[e1 h1] [m|]] eqn:R; simpl.
+    + pose proof (run_complete _ _ _ _ _ R) as Hc. rewrite Hc. exact Hnormal.
+    + destruct (run_prefix_inv h0 U U_init c n _ _ _ _ _ _ _ _ E2 Hinv R) as (aep & ahp & Hinp & Hip).
+      destruct (tbind_in _ _ _ Eh _ Hinp) as (rb & Eb & Hib).
+      destruct (aexec hd (aep, ahp)) as [[ae3 ah3]|] eqn:E3; [|discriminate]. simpl in Eb. inversion Eb; subst.
+      exists ae3, ah3. split; [apply Hi; right; apply Hib; left; reflexivity|].
+      exact (simulation h0 U U_init hd _ _ _ _ _ _ E3 Hip).
+  - (* TSeq *)
+    destruct (tstates t1 l) as [l1|] eqn:E1; [|discriminate].
+    specialize (IHt1 _ _ E1 ns (e, h)).
+    destruct (texec t1 ns (e, h)) as [s1 ns1] eqn:X1. simpl in IHt1.
+    apply (IHt2 _ _ Ht ns1 s1). apply IHt1. exists ae, ah. split; auto.
+Qed.
+End TcmdSim.
+
+(* whatever positions the bodies raise at (ANY oracle), nothing of the caller's heap changes *)
+Theorem frame_tcmd : forall (t : tcmd) (args : list ref) (h0 : heap),
+  tsafe (length args) t = true ->
+  forall ns o, o < length h0 -> nth_error (snd (fst (texec t ns (env0 args, h0)))) o = nth_error h0 o.
+Proof.
+  intros t args h0 Hs ns o Ho. unfold tsafe, tsafe_with in Hs.
+  destruct (tstates t [(aenv0 (repeat false (length args)), [])]) as [l'|] eqn:E; [|discriminate].
+  assert (HU : forall o, False -> o < length h0) by (intros ? []).
+  assert (Hinv : Inv h0 (fun _ => False) (env0 args) h0 (aenv0 (repeat false (length args))) []).
+  { split; [|split; [|split; [|split]]].
+    - simpl. lia.
+    - intros k ao Hk. destruct k; discriminate.
+    - reflexivity.
+    - intros o' it [].
+    - apply env0_rel_prot. }
+  destruct (tcmd_sim h0 (fun _ => False) HU t _ _ E ns (env0 args, h0)) as (ae & ah & _ & (_ & _ & H3 & _ & _)).
+  { exists (aenv0 (repeat false (length args))), []. split; [left; reflexivity|exact Hinv]. }
+  apply H3; auto.
+Qed.
+
+(* active_set_nnls with its try statement inside the sweep (two sweeps, each with its own interruption point), followed by
+   a `finally`-style epilogue; and the same with the handler that resets the warm start in place *)
+Lemma tcmd_demo :
+  tsafe 3 tc_active_set_nnls = true /\
+  tsafe 3 (tc_active_set (seq [ WriteInto 10 [0%Z; 0%Z]; Alloc 14 2 ])) = false /\
+  snd (fst (texec (tc_active_set (seq [ WriteInto 10 [0%Z; 0%Z]; Alloc 14 2 ])) [1; 0]
+       (env0 [RObj 0 [0; 1]; RObj 1 [0; 1; 2; 3]; RObj 2 [0; 1]], [OBuf [1; 2]%Z; OBuf [1; 0; 0; 1]%Z; OBuf [7; 7]%Z]))) <>
+    [OBuf [1; 2]%Z; OBuf [1; 0; 0; 1]%Z; OBuf [7; 7]%Z] /\
+  nth_error (snd (fst (texec (tc_active_set (seq [ WriteInto 10 [0%Z; 0%Z]; Alloc 14 2 ])) [1; 0]
+       (env0 [RObj 0 [0; 1]; RObj 1 [0; 1; 2; 3]; RObj 2 [0; 1]], [OBuf [1; 2]%Z; OBuf [1; 0; 0; 1]%Z; OBuf [7; 7]%Z])))) 2 = Some (OBuf [0; 0]%Z).
 Proof. vm_compute. repeat split; try reflexivity. discriminate. Qed.
